@@ -278,7 +278,10 @@ class EDXMLParserBase(object):
             # so we generate a minimal XML tree containing just ontology elements.
             # Elements that follow the ontology element being validated may have been
             # received only partially yet, so we leave these out as well.
-            position = self.__root_element.index(ontology_element)
+            try:
+                position = self.__root_element.index(ontology_element)
+            except ValueError:
+                raise EDXMLValidationError('Found an <ontology> element that is not a child of the root element.')
             ontology_tree = copy.copy(self.__root_element)
             for index, element in enumerate(ontology_tree.findall('./*')):
                 if index > position or element.tag != '{http://edxml.org/edxml}ontology':
